@@ -344,7 +344,14 @@ def rule_tables(R, ctx, rid="C09.tables"):
 
 def _bias(fn, op):
     out = set()
+    adders = ("saturating_add", "wrapping_add", "checked_add") if op == "+" else ("saturating_sub", "wrapping_sub", "checked_sub")
     for n in hir_walk(fn.hir["body"]):
+        if n.get("k") == "mcall" and n.get("name") in adders and n.get("args"):
+            c = W.const_values(n["args"][0])
+            if c and len(c) == 1 and c[0] in (1, 2):
+                l = W.canon(n["recv"])
+                if "count" in l or "read" in l:
+                    out.add(c[0])
         if n.get("k") == "bin" and n.get("op") == op:
             c = W.const_values(n["r"])
             if c and len(c) == 1 and c[0] in (1, 2):
